@@ -194,3 +194,78 @@ where
     let mut g = results.lock().unwrap();
     g.drain(..).map(|r| r.unwrap()).collect()
 }
+
+/// Like `run_pool`, with a per-job wall-clock watchdog: a job that does not return within `limit`
+/// (e.g. the code under test spins inside a single poll, which no async timeout can interrupt) gets
+/// `on_timeout` as its result; its worker thread is abandoned (the process exits when `main` returns)
+/// and replaced.
+pub fn run_pool_watchdog<J, R, F>(jobs: Vec<J>, threads: usize, limit: std::time::Duration, on_timeout: R, f: F) -> Vec<R>
+where
+    J: Send + 'static,
+    R: Send + Clone + 'static,
+    F: Fn(J) -> R + Send + Sync + 'static,
+{
+    use std::collections::HashMap;
+    use std::sync::{mpsc, Arc, Mutex};
+    use std::time::Instant;
+    let n = jobs.len();
+    let queue = Arc::new(Mutex::new(jobs.into_iter().enumerate().collect::<Vec<_>>()));
+    queue.lock().unwrap().reverse();
+    let inflight: Arc<Mutex<HashMap<usize, (usize, Instant)>>> = Arc::new(Mutex::new(HashMap::new()));
+    let (tx, rx) = mpsc::channel::<(usize, usize, R)>();
+    let f = Arc::new(f);
+    let next_worker = std::cell::Cell::new(0usize);
+    let spawn = |wid: usize| {
+        let queue = queue.clone();
+        let inflight = inflight.clone();
+        let tx = tx.clone();
+        let f = f.clone();
+        std::thread::spawn(move || loop {
+            let job = queue.lock().unwrap().pop();
+            let Some((i, j)) = job else { break };
+            inflight.lock().unwrap().insert(wid, (i, Instant::now()));
+            let r = f(j);
+            inflight.lock().unwrap().remove(&wid);
+            if tx.send((wid, i, r)).is_err() {
+                break;
+            }
+        });
+    };
+    for _ in 0..threads.max(1) {
+        spawn(next_worker.get());
+        next_worker.set(next_worker.get() + 1);
+    }
+    let mut results: Vec<Option<R>> = (0..n).map(|_| None).collect();
+    let mut abandoned: Vec<usize> = vec![];
+    let mut done = 0;
+    while done < n {
+        match rx.recv_timeout(std::time::Duration::from_millis(200)) {
+            Ok((wid, i, r)) => {
+                if !abandoned.contains(&wid) && results[i].is_none() {
+                    results[i] = Some(r);
+                    done += 1;
+                }
+            }
+            Err(mpsc::RecvTimeoutError::Timeout) => {}
+            Err(mpsc::RecvTimeoutError::Disconnected) => break,
+        }
+        let stuck: Vec<(usize, usize)> = inflight
+            .lock()
+            .unwrap()
+            .iter()
+            .filter(|(w, (_, t))| t.elapsed() > limit && !abandoned.contains(w))
+            .map(|(w, (i, _))| (*w, *i))
+            .collect();
+        for (w, i) in stuck {
+            abandoned.push(w);
+            inflight.lock().unwrap().remove(&w);
+            if results[i].is_none() {
+                results[i] = Some(on_timeout.clone());
+                done += 1;
+            }
+            spawn(next_worker.get());
+            next_worker.set(next_worker.get() + 1);
+        }
+    }
+    results.into_iter().map(|r| r.unwrap_or_else(|| on_timeout.clone())).collect()
+}
